@@ -10,6 +10,7 @@ import XotModel.Lemmas.ForestBasic
 import XotModel.Lemmas.FmapMove
 import XotModel.Lemmas.FmapHistPos
 import XotModel.Lemmas.FmapHistSer
+import XotModel.Model.ValueAccess
 
 namespace XotModel.Props
 open XotModel
@@ -449,6 +450,82 @@ theorem C11_entry_api (f : Forest) (hi : f.Inv) (k : Forest.MapKind) (e : Nat)
    fun v hm => let r := (C11_entry_insert_remove f hi k e he).1 v hm; ⟨r.2, r.1⟩,
    fun key => let r := (C11_entry_insert_remove f hi k e he).2 key; ⟨r.2, r.1⟩⟩
 
+/-- `entry(key).or_insert_with(call)` IS `entry(key).or_insert(call())` (same forest, same outcome,
+    no hypothesis), except that the closure is only evaluated for a vacant entry: the flag says
+    whether it ran.  (`call ()` is the entry value `A::create(key, call())`, so its key is `key`.) -/
+theorem C11_entry_or_insert_with_eq (f : Forest) (k : Forest.MapKind) (e key : Nat)
+    (call : Unit → Value) (hk : Forest.entryKey (call ()) = key) :
+    (f.entryOrInsertWith k e key call).1 = (f.entryOrInsert k e (call ())).1 ∧
+    (f.entryOrInsertWith k e key call).2.1 = (f.entryOrInsert k e (call ())).2 ∧
+    (f.entryOrInsertWith k e key call).2.2 =
+      (f.isElement e && !(f.mapGetNode k e key).isSome) := by
+  unfold Forest.entryOrInsertWith Forest.entryOrInsert
+  rw [hk]
+  cases he : f.isElement e
+  · simp
+  · simp only [Bool.not_true, Bool.false_eq_true, if_false, Bool.true_and]
+    unfold Forest.mapEntry Forest.mapGet
+    cases hn : f.mapGetNode k e key <;> simp
+
+/-- The reference-map meaning of `or_insert_with`: an occupied entry is left alone and the closure
+    does not run; a vacant one receives the closure's value, last; no panic; the `&mut V` handed
+    back refers to the value now stored under the key (the old one, or the closure's). -/
+theorem C11_entry_or_insert_with (f : Forest) (hi : f.Inv) (k : Forest.MapKind) (e key : Nat)
+    (call : Unit → Value) (he : f.isElement e = true) (hk : Forest.entryKey (call ()) = key)
+    (hm : k.matches (call ()) = true) :
+    abs k (f.entryOrInsertWith k e key call).1 e =
+      (if omContainsKey (abs k f e) key then abs k f e
+       else omInsert (abs k f e) key (payloadOf (call ()))) ∧
+    (f.entryOrInsertWith k e key call).2.1 = .ok ∧
+    (f.entryOrInsertWith k e key call).2.2 = !omContainsKey (abs k f e) key ∧
+    omGet (abs k (f.entryOrInsertWith k e key call).1 e) key =
+      (omGet (abs k f e) key).or (some (payloadOf (call ()))) ∧
+    (∀ k', k' ≠ k → abs k' (f.entryOrInsertWith k e key call).1 e = abs k' f e) := by
+  obtain ⟨h1, h2, h3⟩ := C11_entry_or_insert_with_eq f k e key call hk
+  obtain ⟨r1, r2, r3⟩ := C11_entry_or_insert f hi k e (call ()) he hm
+  rw [hk] at r1
+  have hc : (f.mapGetNode k e key).isSome = omContainsKey (abs k f e) key := containsKey_eq f k e key
+  refine ⟨by rw [h1]; exact r1, by rw [h2]; exact r2, by rw [h3, he, hc]; rfl, ?_, ?_⟩
+  · rw [h1, r1]
+    cases hg : omGet (abs k f e) key with
+    | some p => simp [omContainsKey, hg]
+    | none => simp [omContainsKey, hg, omGet_insert_self]
+  · intro k' hk'; rw [h1]; exact r3 k' hk'
+
+/-- `if let Occupied(o) = entry(key) { *o.into_mut() = v }` IS `if let Some(x) = get_mut(key)
+    { *x = v }` (no hypothesis): `into_mut` is `get_mut(key).unwrap()` behind a successful `get`. -/
+theorem C11_entry_into_mut_eq (f : Forest) (k : Forest.MapKind) (e key : Nat) (new : Value) :
+    f.occupiedIntoMutSet k e key new = f.mapGetMutSet k e key new := by
+  unfold Forest.occupiedIntoMutSet Forest.mapGetMutSet Forest.mapEntry Forest.mapGet
+  cases f.isElement e
+  · simp
+  · cases hn : f.mapGetNode k e key <;> simp [hn]
+
+/-- The reference-map meaning of `OccupiedEntry::into_mut` and a write through it: the stored
+    value changes in place, nothing happens on a vacant entry, the `unwrap` never panics. -/
+theorem C11_entry_into_mut (f : Forest) (hi : f.Inv) (k : Forest.MapKind) (e key : Nat) (new : Value)
+    (he : f.isElement e = true) (hm : k.matches new = true) :
+    abs k (f.occupiedIntoMutSet k e key new).1 e = omModify (abs k f e) key (fun _ => payloadOf new) ∧
+    (f.occupiedIntoMutSet k e key new).2.1 = .ok ∧
+    (f.occupiedIntoMutSet k e key new).2.2 = omContainsKey (abs k f e) key ∧
+    (∀ k', k' ≠ k → abs k' (f.occupiedIntoMutSet k e key new).1 e = abs k' f e) := by
+  rw [C11_entry_into_mut_eq]
+  exact C11_get_mut f hi k e key new he hm
+
+/-- The read accessors of the entry API.  `entry(key)` is `Occupied` exactly when the reference map
+    contains the key, `Vacant` otherwise, and carries that key (`Entry::key`, `OccupiedEntry::key`,
+    `VacantEntry::key`); on an occupied entry `get` / `get_mut` / `into_mut` (`get…(key).unwrap()`) do
+    not panic and see the reference value.  No hypothesis. -/
+theorem C11_entry_key_get (f : Forest) (k : Forest.MapKind) (e key : Nat) :
+    (f.mapEntry k e key = (if omContainsKey (abs k f e) key then .occupied key else .vacant key)) ∧
+    (omContainsKey (abs k f e) key = true →
+      f.occGetMut k e key = .ok ∧ (f.mapGet k e key).map payloadOf = omGet (abs k f e) key) := by
+  have hc := containsKey_eq f k e key
+  have hg := get_eq f k e key
+  unfold Forest.mapEntry Forest.occGetMut Forest.mapGet
+  rw [← hc, ← hg]
+  cases hn : f.mapGetNode k e key <;> simp
+
 /-! ### Serialisation order -/
 
 /-- What the serialisers iterate for an element (`gen_outputs`: `xot.namespaces(node)` then
@@ -459,6 +536,20 @@ theorem C11_order (f : Forest) (e : Nat) (t : HTree) (h : f.get? e = some t) :
   unfold absNs absAttrs Fmap.abs
   rw [h]
   exact ⟨nsDecls_erase t, attrs_erase t⟩
+
+/-- The accessor shortcuts of access.rs.  `get_attribute(n, name)` is `attributes(n).get(name)`,
+    `get_namespace(n, prefix)` is `namespaces(n).get(prefix)`, `namespace_declarations(n)` is
+    `namespaces(n).iter()` collected: for a forest element whose erasure sits at path `p` of a
+    tree `T`, they are the lookups in / the list of the reference views (`absAttrs`, `absNs`). -/
+theorem C11_get_attribute (f : Forest) (e : Nat) (t : HTree) (h : f.get? e = some t)
+    (T : Tree) (p : Path) (hrel : T.at? p = some (HTree.erase t)) (name pfx : Nat) :
+    Axes.getAttribute T p name = (absAttrs f e).lookup name ∧
+    Axes.getNamespace T p pfx = (absNs f e).lookup pfx ∧
+    Axes.namespaceDeclarations T p = absNs f e := by
+  obtain ⟨hn, ha⟩ := C11_order f e t h
+  have hs : Axes.subAt T p = HTree.erase t := by simp [Axes.subAt, hrel]
+  simp [Axes.getAttribute, Axes.getNamespace, Axes.namespaceDeclarations, Tree.getAttribute,
+    Tree.getNamespace, hs, hn, ha]
 
 /-! ### Non-vacuity -/
 
@@ -487,6 +578,21 @@ example : c11Example2.Inv ∧ c11Example2.isElement 1 = true ∧ c11Example2.isE
   ⟨(Forest.inv_iff _).mp (by decide), by decide, by decide, by decide, by decide, by decide⟩
 
 example : 3 ∈ absNodes .attributes c11Example 1 ∧ 2 ∈ absNodes .namespaces c11Example 1 := by decide
+
+/-- `or_insert_with` on an occupied key (closure not run, value kept) and on a vacant one (closure
+    run, entry last); `into_mut` on an occupied key (written through) and on a vacant one. -/
+example :
+    (c11Example.entryOrInsertWith .attributes 1 3 (fun _ => .attribute 3 ['z'])).2 = (.ok, false) ∧
+    abs .attributes (c11Example.entryOrInsertWith .attributes 1 3 (fun _ => .attribute 3 ['z'])).1 1 =
+      [(3, .str ['v']), (5, .str ['w'])] ∧
+    (c11Example.entryOrInsertWith .attributes 1 9 (fun _ => .attribute 9 ['z'])).2 = (.ok, true) ∧
+    abs .attributes (c11Example.entryOrInsertWith .attributes 1 9 (fun _ => .attribute 9 ['z'])).1 1 =
+      [(3, .str ['v']), (5, .str ['w']), (9, .str ['z'])] ∧
+    (c11Example.occupiedIntoMutSet .namespaces 1 0 (.namespace 0 4)).2 = (.ok, true) ∧
+    abs .namespaces (c11Example.occupiedIntoMutSet .namespaces 1 0 (.namespace 0 4)).1 1 = [(0, .ns 4)] ∧
+    (c11Example.occupiedIntoMutSet .namespaces 1 1 (.namespace 1 4)).2 = (.ok, false) ∧
+    abs .namespaces (c11Example.occupiedIntoMutSet .namespaces 1 1 (.namespace 1 4)).1 1 = [(0, .ns 2)] := by
+  decide
 
 example : abs .attributes c11Example 1 = [(3, .str ['v']), (5, .str ['w'])] ∧
     abs .attributes (c11Example.mapInsert .attributes 1 (.attribute 3 ['z'])).1 1 =
